@@ -1,14 +1,35 @@
 import Frost.Driver.Ops
+import Frost.Driver.WireOps
+import Frost.Ref.Crc32
 import Frost.Ref.Toy
 import Frost.Ref.Suites
 import Frost.Ref.Bip340
 
 open Frost Frost.Driver Frost.Ref
 
+/-- `Header`: version 0, then the big-endian CRC-32 of the ciphersuite ID -/
+def header (id : Bytes) : Bytes :=
+  let c := (crc32 id).toNat
+  [0, UInt8.ofNat (c / 16777216), UInt8.ofNat (c / 65536), UInt8.ofNat (c / 256), UInt8.ofNat c]
+
+def isWireOp (op : String) : Bool := op = "ser" || op = "de" || op = "prim"
+
 def runLine (line : String) : String :=
   match (line.trimAscii.toString.splitOn " ").filter (· ≠ "") with
   | op :: suite :: rest =>
     let a := parseArgs rest
+    if isWireOp op then
+      match suite with
+      | "toy31" => runWireOp toy31 (header toy31.ID) op a
+      | "toy16" => runWireOp toy16 (header toy16.ID) op a
+      | "ed25519" => runWireOp ed25519Suite (header ed25519Suite.ID) op a
+      | "ed448" => runWireOp ed448Suite (header ed448Suite.ID) op a
+      | "p256" => runWireOp p256Suite (header p256Suite.ID) op a
+      | "ristretto255" => runWireOp ristrettoSuite (header ristrettoSuite.ID) op a
+      | "secp256k1" => runWireOp secp256k1Suite (header secp256k1Suite.ID) op a
+      | "secp256k1-tr" => runWireOp secp256k1TrSuite (header secp256k1TrSuite.ID) op a
+      | _ => "bad-suite"
+    else
     match suite with
     | "toy31" => runOp toy31 op a
     | "toy16" => runOp toy16 op a
